@@ -248,7 +248,7 @@ def combinators(ctx):
     CP = 'mystic.coupler'
     zero_fn = ('lambda', ('_b0',), (), T.num(0))
     for name, agg in (('and_', 'sum'), ('or_', 'min')):
-        f = ctx.func('%s:%s' % (CP, name))
+        f = ctx.func('mystic.coupler:%s' % name)
         rts = return_terms(f.node)
         ctx.need(rts, '%s: no return' % name)
         # what is returned: <some penalty type>(<aggregate over the members at x>, **settings)(<zero function>), locals substituted
@@ -343,3 +343,51 @@ def adapters_keep_the_penalty_closure_family(ctx):
         good = not extra and not other and len(rets) == 1 and isinstance(rets[0].value, ast.Name) and rets[0].value.id == pen.name
         ctx.check(good, f.qualname + '#result', 'only .func and .ptype are set; the decorated penalty is returned',
                   '%s rewrites the decorated penalty after building it (%s)' % (f.qualname, [norm_stmt(s)[:50] for s in (extra + other)][:2]), f, (extra + other + rets + [pen])[0])
+
+
+@rule('C15.g', min_instances=3)
+def combinator_settings(ctx):
+    """coupler.and_ / or_ / not_ hand their keyword settings to the penalty type as documented, whatever else is given: evaluated over every scenario of the caller's keywords (k absent / None / given  x  ptype absent / None / given, abstract interpretation of the settings prologue) the penalty type receives k=1 when k was not given, no k when it was None (the type's own default), the caller's k otherwise, and never a `ptype` keyword"""
+    from . import dictsim as DS
+    for name in ('and_', 'or_', 'not_'):
+        f = ctx.func('mystic.coupler:%s' % name)
+        kw = f.node.args.kwarg.arg if f.node.args.kwarg else None
+        ctx.need(kw, '%s no longer takes **settings' % name)
+        calls = [c for c in ast.walk(f.node) if isinstance(c, ast.Call) and any(k.arg is None and isinstance(k.value, ast.Name) and k.value.id == kw for k in c.keywords)]
+        ctx.need(len(calls) == 1, '%s: expected exactly one call that receives **%s' % (name, kw))
+        KV, PV = DS.Tok('caller k'), DS.Tok('caller ptype')
+        bad = None
+        n = 0
+        for kname, kval in (('absent', DS.ABSENT), ('None', None), ('given', KV)):
+            for pname, pval in (('absent', DS.ABSENT), ('None', None), ('given', PV)):
+                got = DS.settings_at(f.node, kw, {'k': kval, 'ptype': pval, 'h': DS.Tok('caller h')}, calls[0])
+                n += 1
+                want_k = {'absent': 1, 'None': DS.ABSENT, 'given': KV}[kname]
+                got_k = got.get('k', DS.ABSENT)
+                if got_k is not want_k and got_k != want_k:
+                    bad = 'k %s, ptype %s: the penalty type receives k=%r, documented %r' % (kname, pname, got_k, want_k)
+                elif 'ptype' in got:
+                    bad = 'k %s, ptype %s: `ptype` is passed on as a keyword of the penalty type' % (kname, pname)
+                elif 'h' not in got:
+                    bad = 'k %s, ptype %s: the caller\'s h is dropped' % (kname, pname)
+        ctx.stats['terms_compared'] += n
+        ctx.check(bad is None, 'coupler.%s#settings' % name, 'k defaults to 1 (None: the type\'s default), ptype consumed, other settings passed on - %d keyword scenarios' % n,
+                  'coupler.%s: %s' % (name, bad), f, calls[0])
+
+
+@rule('C15.h', min_instances=1)
+def constraint_as_penalty_measures_the_displacement(ctx):
+    """as_penalty turns a constraints solver into the condition rnorm(x) = sqrt(sum_i (constraint(x)[i] - x[i])**2), zero exactly where the solver leaves x alone: the closure agrees, path for path and with casts kept visible, with that definition (a cast of the constrained values to the type of x truncates them for integer-valued points, so an infeasible point measures zero)"""
+    f = ctx.func('mystic.constraints:as_penalty.rnorm')
+    ref = '''def rnorm(x, *argz, **kwdz):
+    error = 0.0
+    constrained = constraint(x, *argz, **kwdz)
+    for i in range(len(x)):
+        error += (constrained[i] - x[i])**2
+    error = error**0.5
+    return error
+'''
+    got, want = SB.agree(f.node, ref, strict_casts=True)
+    ctx.stats['terms_compared'] += len(got)
+    ctx.check(got == want, 'as_penalty.rnorm', 'Euclidean distance between constraint(x) and x, no casts',
+              'as_penalty.rnorm differs from its definition: %s' % SB.diff(got, want), f, f.node)
